@@ -14,7 +14,7 @@ LEAN_FILE = 'PncProofs/C12.lean'
 NAMESPACE = 'Props.C12'
 LEAN_CONE = ['PncModel.Cal', 'PncModel.TimeDec', 'PncProofs.CalLemmas', 'PncProofs.C12']
 LEMMA_FILES = ['PncProofs/CalLemmas.lean']
-REQUIRED_THEOREMS = ['dby_is_sum_of_year_lengths', 'tflag_decodes_true_instant', 'flags_roundtrip',
+REQUIRED_THEOREMS = ['tstep_decode', 'tstep_neg', 'tstep_floor_counterexample', 'dby_is_sum_of_year_lengths', 'tflag_decodes_true_instant', 'flags_roundtrip',
                      'synth_decodes_to_attr_times', 'attr_times_arith', 'atv_decodes_to_flags',
                      'cf_standard_inverse', 'atv_tstep_ok', 'atv_tstep_counterexample',
                      'yearlike_drops_time_of_day']
@@ -59,10 +59,18 @@ def _tstep(rng):
     return rng.choice([10000, 10000, 30000, 240000, 3000, 100, 1, 13015, 250000, 1000000, 7440000, 0])
 
 
-def _flags(rng, n):
+def _tsecs(T):
+    """seconds of an IOAPI HHMMSS step; the sign of a negative step (a file that runs backward) belongs to the whole"""
+    a = abs(T)
+    return (-1 if T < 0 else 1) * (a // 10000 * 3600 + a % 10000 // 100 * 60 + a % 100)
+
+
+def _flags(rng, n, backward=False):
     sd, st = _start(rng)
     T = _tstep(rng)
-    secs = T // 10000 * 3600 + T % 10000 // 100 * 60 + T % 100
+    if backward:
+        T = rng.choice([-10000, -13000, -3000, -13015, -240000, -100])
+    secs = _tsecs(T)
     t0 = dt.datetime(sd // 1000, 1, 1) + dt.timedelta(days=sd % 1000 - 1, hours=st // 10000,
                                                       minutes=st % 10000 // 100, seconds=st % 100)
     fl = []
@@ -178,13 +186,18 @@ def gen(rng, tier):
         r = i % 10
         if r < 2:
             nt = rng.randint(1, 5)
-            sd, st, T, fl = _flags(rng, nt)
+            sd, st, T, fl = _flags(rng, nt, backward=rng.random() < 0.15)     # backward: a file that runs backward in time
             if rng.random() < 0.1:
                 fl[rng.randrange(nt)][0] = -635
             out.append(dict(kind='tflag', flags=fl, bounds=rng.random() < 0.4,
                             tstep=(T if rng.random() < 0.6 else None)))
+            if nt >= 3 and rng.random() < 0.4 and -635 not in [d for d, t in fl]:
+                # the interior flags are corrected in place (same object, same shape, same end records) and the times
+                # asked for again: the second answer is that of the file as it is then
+                out[-1]['edit'] = [[j, [fl[j][0] + (1 if fl[j][0] % 1000 < 300 else -1), (fl[j][1] + 3000) % 230000 // 100 * 100]]
+                                   for j in range(1, nt - 1) if rng.random() < 0.7] or [[1, [fl[1][0], (fl[1][1] + 3000) % 230000 // 100 * 100]]]
         elif r < 3:
-            sd, st, T, fl = _flags(rng, 1)
+            sd, st, T, fl = _flags(rng, 1, backward=rng.random() < 0.15)
             if rng.random() < 0.1:
                 sd = rng.choice([0, -1, 2019366, 2020366, 20190011])
             if rng.random() < 0.05:
@@ -208,6 +221,8 @@ def gen(rng, tier):
         else:
             nt = rng.randint(1, 5)
             sd, st, T, fl = _flags(rng, nt)
+            if rng.random() < 0.2 and nt >= 3:
+                fl = fl[::-1] if rng.random() < 0.5 else fl[1:] + fl[:1]      # dates that do not ascend / a date that recurs
             # pre: the CF variables were synthesised once before, for another step with the same start and count
             out.append(dict(kind='atv', sdate=sd, stime=st, tstep=T, flags=fl if rng.random() < 0.5 else None, n=nt,
                             pre=rng.random() < 0.4))
@@ -253,6 +268,11 @@ def impl(case):
                 res['mutated'] = bool((f.variables['TFLAG'][:] != before).any())
                 if -635 not in [d for d, t in case['flags']]:
                     res['gettimes'] = _times_out(coordutil.gettimes(f))
+                if case.get('edit'):
+                    for j, (d_, t_) in case['edit']:
+                        f.variables['TFLAG'][j, :, 0] = d_
+                        f.variables['TFLAG'][j, :, 1] = t_
+                    res['times2'] = _times_out(f.getTimes(bounds=case['bounds']))
                 return res
             if k == 'tau':
                 f = _pfile()
@@ -531,18 +551,25 @@ def oracle(case, res):
         got = [Fraction(x) for x in res['times']]
         if got[:len(exp)] != exp:
             return 'decoded %s but flags encode %s' % (got[:3], exp[:3])
+        if case.get('edit') and 'times2' in res:
+            fl2 = [list(x) for x in case['flags']]
+            for j, dt_ in case['edit']:
+                fl2[j] = dt_
+            exp2 = [_true_instant(d, t) for d, t in fl2]
+            if [Fraction(x) for x in res['times2']][:len(exp2)] != exp2:
+                return 'after the flags were corrected in place the times are %s, the flags encode %s' % (res['times2'][:4], exp2[:4])
         if case['bounds']:
             if len(got) != len(exp) + 1:
                 return 'bounds=True returned %d instants for %d flags' % (len(got), len(exp))
             if case.get('tstep') is not None:
                 T = case['tstep']
-                if got[-1] - got[-2] != T // 10000 * 3600 + T % 10000 // 100 * 60 + T % 100:
+                if got[-1] - got[-2] != _tsecs(T):
                     return 'last bound is not one TSTEP after the last flag'
         return None
     if k == 'attrs':
         sd = case['sdate'] if case['sdate'] >= 1 else 1970001
         T = case['tstep']
-        step = T // 10000 * 3600 + T % 10000 // 100 * 60 + T % 100
+        step = _tsecs(T)
         n = case['n'] + (1 if case['bounds'] else 0)
         exp = [_true_instant(sd, case['stime']) + i * step for i in range(n)]
         got = [Fraction(x) for x in res['times']]
